@@ -115,9 +115,68 @@ def _run(f, c):
     return np.concatenate([f.next(n) for n in chunks_of(c)]) if chunks_of(c) else np.zeros(0)
 
 
+# ---- hardening item 9: optional arguments left out ------------------------------------------------
+# documented defaults of the optional arguments (signatures / docstrings of psiaudio.stim).  A case with
+# c['omit'] == 'omit' leaves out every optional argument whose value is the documented default; with 'spell' every
+# optional argument is written down, those the case says nothing about at their documented default; the oracle
+# demands that both spellings of the request give the same stimulus.  Other cases call as they always did.
+INF = float('inf')
+_OMITTED = []          # what the last 'omit' call left out (for the failure message)
+DOC = {
+    'tone': dict(phase=0, polarity=1, offset=0),
+    'ToneFactory': dict(phase=0, polarity=1),
+    'Cos2EnvelopeFactory': dict(start_time=0),
+    'sam_tone': dict(depth=1, phase=0, phase_lb=0, phase_ub=0, polarity=1, offset=0, eq_power=True, equalize=True),
+    'SAMToneFactory': dict(depth=1, phase=0, phase_lb=0, phase_ub=0, polarity=1, eq_power=True, equalize=True),
+    'chirp': dict(window='boxcar', equalize=False, max_correction=INF),
+    'bandlimited_click': dict(window=0.1, level_unit='rms', equalize=False, max_correction=INF),
+    'BandlimitedClickFactory': dict(equalize=False, max_correction=INF),
+    'broadband_noise': dict(seed=1, equalize=False, polarity=1),
+    'notch_noise': dict(seed=1, equalize=False, polarity=1),
+    'BandlimitedNoiseFactory': dict(equalize=False, polarity=1, discard_initial_samples=True),
+    'bandlimited_noise': dict(filter_rolloff=1, passband_attenuation=1, stopband_attenuation=80, equalize=False,
+                              polarity=1, seed=1),
+    'bandlimited_fir_noise': dict(ntaps=10001, window='hann', polarity=1, seed=1, equalize=True),
+    'BandlimitedFIRNoiseFactory': dict(ntaps=1001, window='hann', polarity=1, max_correction=INF, equalize=False),
+    'shaped_noise': dict(ntaps=10001, window='hann', polarity=1, seed=1),
+    'load_wav': dict(normalization=None),
+    'WavFileFactory': dict(normalization='pe'),
+}
+
+
+def _is_doc_default(v, d):
+    if d is None or isinstance(d, (bool, str)):
+        return type(v) is type(d) and v == d
+    return v is not None and not isinstance(v, (bool, str)) and float(v) == float(d)
+
+
+def _kw(name, c, **opts):
+    mode = c.get('omit')
+    if mode == 'omit':
+        out = {k: v for k, v in opts.items() if not (k in DOC[name] and _is_doc_default(v, DOC[name][k]))}
+        _OMITTED.extend(f'{name}({k}={DOC[name][k]!r})' for k in opts if k not in out)
+        return out
+    if mode == 'spell':
+        return {**DOC[name], **opts}
+    return opts
+
+
+def _eqopts(c):
+    """equalisation options of the case: `eqz` (equalize flag) and `mc` (max_correction: 'default' = left out,
+    'inf', or a number of dB)"""
+    if 'eqz' not in c:
+        return {}
+    o = {'equalize': bool(c['eqz'])}
+    mc = c.get('mc', 'default')
+    if mc != 'default':
+        o['max_correction'] = INF if mc == 'inf' else float(mc)
+    return o
+
+
 def build(c, L, pol, cal=None):
     """The real stimulus for case `c` at level L and polarity pol."""
     from psiaudio import stim
+    _OMITTED.clear()
     cal = mkcal(c['cal']) if cal is None else cal
     fs, k = c['fs'], c['kind']
     # the caller's spelling of the same numbers: whole numbers as Python / NumPy integers, NumPy floats
@@ -127,61 +186,79 @@ def build(c, L, pol, cal=None):
         pol = float(pol)
     elif c.get('polrepr') == 'npint':
         pol = np.int64(pol)
+    plain = not c.get('omit')
     if k == 'tone':
-        if c.get('tonekw') == 'duration' and not c.get('offset'):
+        if c.get('tonekw') == 'duration' and not c.get('offset') and plain:
             return stim.tone(fs, c['f'], L, c['ph'], pol, cal, duration=(c['n'] + 0.25) / c['fs'])
-        return stim.tone(fs, c['f'], L, phase=c['ph'], polarity=pol, calibration=cal, samples=c['n'],
-                         offset=c.get('offset', 0))
+        return stim.tone(fs, c['f'], L, calibration=cal, samples=c['n'],
+                         **_kw('tone', c, phase=c['ph'], polarity=pol, offset=c.get('offset', 0)))
     if k == 'tone_factory':
-        f = stim.ToneFactory(fs, c['f'], L, phase=c['ph'], polarity=pol, calibration=cal)
+        f = stim.ToneFactory(fs, c['f'], L, calibration=cal, **_kw('ToneFactory', c, phase=c['ph'], polarity=pol))
         return _run(f, c)
     if k == 'ramped':
         f = stim.Cos2EnvelopeFactory(fs, duration=c['n'] / fs, rise_time=c['n'] / fs / 4, input_factory=stim.ToneFactory(
-            fs, c['f'], L, phase=c['ph'], polarity=pol, calibration=cal))
+            fs, c['f'], L, calibration=cal, **_kw('ToneFactory', c, phase=c['ph'], polarity=pol)),
+            **_kw('Cos2EnvelopeFactory', c))
         return _run(f, c)
     if k == 'sam':
-        return stim.sam_tone(fs, c['fc'], c['fm'], L, phase=c['ph'], phase_lb=c['phl'], phase_ub=c['phu'],
-                             polarity=pol, calibration=cal, samples=c['n'], offset=c.get('offset', 0),
-                             eq_power=c['eq_power'], equalize=c['equalize'])
+        return stim.sam_tone(fs, c['fc'], c['fm'], L, calibration=cal, samples=c['n'],
+                             **_kw('sam_tone', c, phase=c['ph'], phase_lb=c['phl'], phase_ub=c['phu'], polarity=pol,
+                                   offset=c.get('offset', 0), eq_power=c['eq_power'], equalize=c['equalize']))
     if k == 'sam_factory':
-        f = stim.SAMToneFactory(fs, c['fc'], c['fm'], L, phase=c['ph'], phase_lb=c['phl'], phase_ub=c['phu'],
-                                polarity=pol, eq_power=c['eq_power'], equalize=c['equalize'], calibration=cal)
+        f = stim.SAMToneFactory(fs, c['fc'], c['fm'], L, calibration=cal,
+                                **_kw('SAMToneFactory', c, phase=c['ph'], phase_lb=c['phl'], phase_ub=c['phu'],
+                                      polarity=pol, eq_power=c['eq_power'], equalize=c['equalize']))
         return _run(f, c)
     if k == 'chirp':
+        kw = _kw('chirp', c, window=c['window'], **_eqopts(c))
         if c.get('factory'):
-            return stim.ChirpFactory(fs, c['f0'], c['f1'], c['n'] / fs, L, cal, window=c['window']).waveform
-        return stim.chirp(fs, c['f0'], c['f1'], c['n'] / fs, L, calibration=cal, window=c['window'])
+            return stim.ChirpFactory(fs, c['f0'], c['f1'], c['n'] / fs, L, cal, **kw).waveform
+        return stim.chirp(fs, c['f0'], c['f1'], c['n'] / fs, L, calibration=cal, **kw)
     if k == 'click':
         return stim.ClickFactory(fs, (c['n'] + 0.5) / fs, L, pol, cal).waveform     # int(fs*duration) = n
     if k == 'blclick':
         if c.get('factory'):
-            return stim.BandlimitedClickFactory(fs, c['flb'], c['fub'], c['win'], L, calibration=cal).waveform
-        return stim.bandlimited_click(fs, c['flb'], c['fub'], window=c['win'], level=L, calibration=cal)
+            return stim.BandlimitedClickFactory(fs, c['flb'], c['fub'], c['win'], L, calibration=cal,
+                                                **_kw('BandlimitedClickFactory', c, **_eqopts(c))).waveform
+        return stim.bandlimited_click(fs, c['flb'], c['fub'], level=L, calibration=cal,
+                                      **_kw('bandlimited_click', c, window=c['win'], **_eqopts(c)))
     if k == 'bbn':
+        kw = _kw('broadband_noise', c, seed=c['seed'], polarity=pol)
         if c.get('chunks'):
-            f = stim.BroadbandNoiseFactory(fs, L, seed=c['seed'], polarity=pol, calibration=cal)
+            f = stim.BroadbandNoiseFactory(fs, L, calibration=cal, **kw)
             return _run(f, c)
-        return stim.broadband_noise(fs, L, c['n'] / fs, seed=c['seed'], polarity=pol, calibration=cal)
+        return stim.broadband_noise(fs, L, c['n'] / fs, calibration=cal, **kw)
     if k == 'notch':
         if c.get('chunks'):
-            nf = stim.BroadbandNoiseFactory(fs=fs, level=L, seed=c['seed'], polarity=pol, calibration=cal)
+            nf = stim.BroadbandNoiseFactory(fs=fs, level=L, calibration=cal,
+                                            **_kw('broadband_noise', c, seed=c['seed'], polarity=pol))
             f = stim.NotchFilterFactory(fs=fs, notch_frequency=c['fn'], q=c['q'], input_factory=nf)
             return _run(f, c)
-        return stim.notch_noise(fs, c['fn'], c['q'], L, c['n'] / fs, seed=c['seed'], polarity=pol, calibration=cal)
+        return stim.notch_noise(fs, c['fn'], c['q'], L, c['n'] / fs, calibration=cal,
+                                **_kw('notch_noise', c, seed=c['seed'], polarity=pol))
     if k == 'bln':
         if c.get('chunks'):
-            f = stim.BandlimitedNoiseFactory(fs, c['seed'], L, c['fl'], c['fh'], 1, 1, 80, polarity=pol, calibration=cal,
-                                            discard_initial_samples=c.get('discard', True))
+            f = stim.BandlimitedNoiseFactory(fs, c['seed'], L, c['fl'], c['fh'], 1, 1, 80, calibration=cal,
+                                            **_kw('BandlimitedNoiseFactory', c, polarity=pol,
+                                                  discard_initial_samples=c.get('discard', True)))
             return _run(f, c)
-        return stim.bandlimited_noise(fs, L, c['fl'], c['fh'], c['n'] / fs, polarity=pol, seed=c['seed'], calibration=cal)
+        return stim.bandlimited_noise(fs, L, c['fl'], c['fh'], c['n'] / fs, calibration=cal,
+                                      **_kw('bandlimited_noise', c, polarity=pol, seed=c['seed']))
     if k == 'fir':
-        return stim.bandlimited_fir_noise(fs, L, c['fl'], c['fh'], c['n'] / fs, ntaps=c['ntaps'], polarity=pol,
-                                          seed=c['seed'], calibration=cal, equalize=c['equalize'])
+        if c.get('factory'):
+            # (the factory's own default seed is None = not reproducible: always given)
+            f = stim.BandlimitedFIRNoiseFactory(fs, c['fl'], c['fh'], L, seed=c['seed'], calibration=cal,
+                                                **_kw('BandlimitedFIRNoiseFactory', c, ntaps=c['ntaps'], polarity=pol,
+                                                      **dict({'equalize': c['equalize']}, **_eqopts(c))))
+            return _run(f, c)
+        return stim.bandlimited_fir_noise(fs, L, c['fl'], c['fh'], c['n'] / fs, calibration=cal,
+                                          **_kw('bandlimited_fir_noise', c, ntaps=c['ntaps'], polarity=pol,
+                                                seed=c['seed'], equalize=c['equalize']))
     if k == 'shaped':
         gains = {float(a): float(b) for a, b in c['gains']}
         keep = dict(gains)
-        w = stim.shaped_noise(fs, L, gains, c['n'] / fs, ntaps=c['ntaps'], polarity=pol, seed=c['seed'],
-                              calibration=cal)
+        w = stim.shaped_noise(fs, L, gains, c['n'] / fs, calibration=cal,
+                              **_kw('shaped_noise', c, ntaps=c['ntaps'], polarity=pol, seed=c['seed']))
         if gains != keep:
             raise AssertionError(f'shaped_noise modified the gains dictionary it was given: {keep} -> {gains}')
         return w
@@ -190,10 +267,10 @@ def build(c, L, pol, cal=None):
         if c.get('pathlib'):
             import pathlib
             p = pathlib.Path(p)
-        how = c.get('wavcall')
+        how = c.get('wavcall') if plain else None
         if c.get('factory'):
             f = stim.WavFileFactory(fs, p, L, cal, c['norm']) if how == 'positional' else \
-                stim.WavFileFactory(fs, p, L, cal, normalization=c['norm'])
+                stim.WavFileFactory(fs, p, L, cal, **_kw('WavFileFactory', c, normalization=c['norm']))
             if c.get('chunks'):
                 return np.asarray(_run(f, c))            # what is played: next() in chunks (zero-padded past the end)
             return np.asarray(f.waveform)
@@ -201,7 +278,7 @@ def build(c, L, pol, cal=None):
             return np.asarray(stim.load_wav(fs, p, L, cal, c['norm']))
         if how == 'allkw':
             return np.asarray(stim.load_wav(fs=fs, filename=p, level=L, calibration=cal, normalization=c['norm']))
-        return np.asarray(stim.load_wav(fs, p, L, cal, normalization=c['norm']))
+        return np.asarray(stim.load_wav(fs, p, L, cal, **_kw('load_wav', c, normalization=c['norm'])))
     raise ValueError(k)
 
 
@@ -258,7 +335,7 @@ def level_definition(c, cal, L, a):
         back = float(np.asarray(cal.get_db(1e3, rms)))
         if abs(back - L) > 0.01:
             return f'band-limited click over its 1 s period reads {back!r} dB, requested {L!r}'
-    elif k == 'chirp' and n >= fs * 0.999:
+    elif k == 'chirp' and n >= fs * 0.999 and (not c.get('eqz') or is_flat_cal(c)):
         sf = float(np.asarray(cal.get_mean_sf(c['f0'], c['f1'], L)))
         rms = float(util.rms(a))
         if abs(db_of(rms) - db_of(sf)) > 0.5:
@@ -408,6 +485,69 @@ def histories(c, L, a):
     return _same(back, a, tol, f'calibration whose fixed gain was changed by {g!r} dB and set back')
 
 
+def defaults_law(c, L, a):
+    """hardening item 9: the request with its optional arguments left out (where they carry the documented default)
+    is the same request as the one with every optional argument written down -- the same stimulus, sample for sample"""
+    build(c, L, 1)
+    left_out = list(_OMITTED)
+    b = build(dict(c, omit='spell'), L, 1)
+    return _same(a, b, 0.0, f'optional arguments left out ({", ".join(left_out) or "none"}) vs. every optional argument '
+                            f'spelled out with its documented default')
+
+
+def band_of(c):
+    k = c['kind']
+    return (c['f0'], c['f1']) if k == 'chirp' else (c['flb'], c['fub']) if k == 'blclick' else (c['fl'], c['fh'])
+
+
+def band_spread(c, cal):
+    """largest difference (dB) between the sensitivities over the stimulus band: the sensitivity is linear in dB
+    between table points, so the extremes sit on the band edges or on table points inside the band"""
+    lo, hi = band_of(c)
+    if is_flat_cal(c):
+        return 0.0
+    fr = [lo, hi] + [r[0] for r in c['cal']['tbl'] if lo <= r[0] <= hi]
+    sens = np.asarray(cal.get_sens(np.array(fr, dtype=float)), dtype=float)
+    return float(np.max(sens) - np.min(sens))
+
+
+def equalisation_laws(c, cal, L, a):
+    """`equalize=True` with `max_correction` ("maximum amount to adjust ... when equalizing"): a limit that no frequency
+    of the band needs (every sensitivity within `max_correction` of every other, a fortiori of their mean) changes
+    nothing; an equalised 1 s click reads the spectrum level at every bin of its band through the calibration"""
+    from psiaudio import util
+    mc = c.get('mc', 'default')
+    finite = mc not in ('default', 'inf')
+    binds = finite and not band_spread(c, cal) <= float(mc) - 1e-6
+    if c['eqz'] and mc != 'inf' and not binds:
+        ref = build(dict(c, mc='inf'), L, 1)
+        # bit-identical on the unchanged library (np.clip returns the values it does not limit); 1e-12 of full scale
+        # leaves room for an implementation that skips the dB round trip (dbi(db(x)): ~100 * 2.2e-16 * ln(10)/20)
+        f = _same(a, ref, 1e-12, f'equalised stimulus with max_correction={mc!r} (no frequency of the band needs that '
+                                 f'much) vs. max_correction=inf')
+        if f:
+            return f
+    if c['kind'] == 'blclick' and c['eqz'] and c['win'] == 1.0 and len(a) == int(round(c['fs'])) and len(a) % 2 == 0:
+        n, fs = len(a), c['fs']
+        freq = np.fft.rfftfreq(n, d=1 / fs)
+        m = np.flatnonzero((freq >= c['flb']) & (freq < c['fub']))
+        z = np.abs(util.csd(a, detrend=None))[m]
+        want = float(util.band_to_spectrum_level(L, len(m)))
+        got = np.asarray(cal.get_db(freq[m], z), dtype=float)
+        if not binds:
+            i = int(np.argmax(np.abs(got - want)))
+            if not abs(got[i] - want) <= 1e-6:
+                return (f'equalised band-limited click: bin {freq[m][i]!r} Hz reads {got[i]!r} dB through the calibration, '
+                        f'spectrum level of {L!r} dB over {len(m)} bins is {want!r}')
+        else:
+            # limited correction: the scale factors applied across the band span at most 2 x max_correction
+            span = float(np.max(20 * np.log10(z)) - np.min(20 * np.log10(z)))
+            if not span <= 2 * float(mc) + 1e-6:
+                return (f'equalised band-limited click with max_correction={mc!r}: the corrections applied across the '
+                        f'band span {span!r} dB')
+    return None
+
+
 def check_property(c):
     L, d = c['L'], c['d']
     cal = mkcal(c['cal'])
@@ -434,6 +574,14 @@ def check_property(c):
     f = level_definition(c, cal, L, a)
     if f:
         return f
+    if c.get('omit') == 'omit':
+        f = defaults_law(c, L, a)
+        if f:
+            return f
+    if 'eqz' in c:
+        f = equalisation_laws(c, cal, L, a)
+        if f:
+            return f
     if c.get('hist', True):
         return histories(c, L, a)
     return None
@@ -591,6 +739,100 @@ def gen_big(rng, calkind):
     return c
 
 
+def gen_defaults(rng, kind, calkind, rep):
+    """hardening item 9: a request whose optional arguments carry their documented defaults and are then left out of
+    the call -- all of them in the function form (rep 0) and in the factory / chunked form (rep 1), a random subset
+    (each with probability 0.7) otherwise"""
+    c = gen_case(rng, kind, calkind, True)
+    c['omit'] = 'omit'
+    c.pop('tonekw', None)
+    c.pop('wavcall', None)
+    p = 1.0 if rep < 2 else 0.7
+
+    def dflt():
+        return rng.random() < p
+    if kind in FILTERED:
+        if c['n'] > 1500:                   # (nothing here needs a 1 s noise)
+            c['n'] = rng.randint(50, 1500)
+            c.pop('chunks', None)
+        if dflt():
+            c['seed'] = 1
+    if rep == 0:
+        c.pop('chunks', None)
+        c.pop('reuse', None)
+        if 'factory' in c:
+            c['factory'] = False
+    elif rep == 1:
+        if kind in ('bbn', 'notch', 'bln') and not c.get('chunks'):
+            c['chunks'] = rng.chunks(c['n'], 3)
+        if 'factory' in c:
+            c['factory'] = True
+    if dflt():
+        c['pol'] = 1
+    if 'ph' in c and dflt():
+        c['ph'] = 0.0
+    for key in ('phl', 'phu'):
+        if key in c and dflt():
+            c[key] = 0.0
+    for key in ('eq_power', 'equalize'):
+        if key in c and dflt():
+            c[key] = True
+    if kind == 'chirp' and dflt():
+        c['window'] = 'boxcar'
+    if kind == 'blclick' and dflt():
+        c['win'] = 0.1
+    if kind == 'bln' and dflt():
+        c.pop('discard', None)
+    if kind in ('fir', 'shaped') and rng.random() < 0.5:
+        # the documented filter length of the function forms; the model line (10001 taps in the naive lfilter of the
+        # driver) is left out: oracle only
+        c.update(ntaps=10001, n=rng.randint(50, 300), nomodel=True)
+    if kind == 'wav' and dflt():
+        c['norm'] = 'pe' if c['factory'] else None
+    return c
+
+
+def _spread_of_table(rows, lo, hi):
+    """dB spread of a piecewise-linear table over [lo, hi] (generator's own arithmetic, only used to pick cases)"""
+    rows = sorted(rows)
+
+    def at(f):
+        for (f0, s0), (f1, s1) in zip(rows, rows[1:]):
+            if f0 <= f <= f1:
+                return s0 + (s1 - s0) * (f - f0) / (f1 - f0)
+        return rows[-1][1]
+    v = [at(lo), at(hi)] + [s_ for f_, s_ in rows if lo <= f_ <= hi]
+    return max(v) - min(v)
+
+
+def gen_eq(rng, kind, calkind):
+    """equalised stimuli (`equalize=True`) with `max_correction` left out, infinite, finite but not needed by any
+    frequency of the band, or small enough to bind"""
+    c = gen_case(rng, kind, calkind, True)
+    c['eqz'] = True
+    if kind == 'fir':
+        c.update(factory=True, equalize=True)
+        c.pop('chunks', None)
+        if c['n'] > 1500:
+            c['n'] = rng.randint(50, 1500)
+    else:
+        c['nomodel'] = True          # the model lines describe the non-equalised chirp / click
+    if kind == 'blclick' and rng.random() < 0.6:
+        c['win'] = 1.0               # the 1 s period: every bin of the band can be read back
+    lo, hi = band_of(c)
+    spread = 0.0 if is_flat_cal(c) else _spread_of_table([r[:2] for r in c['cal']['tbl']], lo, hi)
+    mode = rng.choice(['default', 'inf', 'loose', 'loose', 'bind', 'bind'])
+    if mode == 'bind' and spread < 3.0:
+        mode = 'loose'
+    if mode == 'loose':
+        c['mc'] = round(spread + rng.choice([0.0 if spread == 0 else 0.01, 0.5, 3.0, 20.0]), 3)
+    elif mode == 'bind':
+        c['mc'] = round(rng.choice([1.0, 3.0, spread / 4]), 3)
+    else:
+        c['mc'] = mode
+    return c
+
+
 KINDS = ['tone', 'tone_factory', 'ramped', 'sam', 'sam_factory', 'chirp', 'click', 'blclick', 'bbn', 'notch', 'bln',
          'fir', 'shaped', 'wav']
 
@@ -621,7 +863,10 @@ class C08(FloatSpec):
             'polarity as Python and NumPy ints and floats; wav normalisation None / pe / rms x int16 / int32 / uint8 / float32 x '
             'positional / keyword / pathlib, played through next(); factories re-used after reset; the same request after '
             'the caller overwrote the result; fixed gain changed after first use and set back; 0/1/2-sample stimuli, level '
-            '0 / -20 / 120, step 0; tones of 2^16..2^17 samples starting beyond sample 2^31 and 2^20-sample noise.')
+            '0 / -20 / 120, step 0; tones of 2^16..2^17 samples starting beyond sample 2^31 and 2^20-sample noise. Targeted pass: 39 '
+            'requests per quick run whose optional arguments carry the documented defaults and are left out (law: = every '
+            'optional argument spelled out); 12 equalised chirps / band-limited clicks / FIR noises with max_correction '
+            'left out, inf, finite but not needed (law: = inf), or binding; per-bin level of the equalised 1 s click.')
 
     def gen(self, rng, tier):
         quick = tier == 'quick'
@@ -634,6 +879,15 @@ class C08(FloatSpec):
             yield gen_edge(rng, ('flat', 'interp', 'point')[r % 3])
         for r in range(2 if quick else 8):
             yield gen_big(rng, ('flat', 'interp', 'point')[r % 3])
+        # (after the older generators: their cases stay what they were for a given seed)
+        for r in range(3 if quick else 12):
+            for kind in KINDS:
+                if kind != 'click':                 # (ClickFactory has no optional arguments)
+                    yield gen_defaults(rng, kind, ('flat', 'interp', 'point')[(r + KINDS.index(kind)) % 3], r)
+        for r in range(2 if quick else 12):
+            for kind in ('chirp', 'blclick', 'fir'):
+                for calkind in ('flat', 'interp'):
+                    yield gen_eq(rng, kind, calkind)
 
     # ---------------------------------------------------------------- model
     def model_lines(self, c):
@@ -650,8 +904,8 @@ class C08(FloatSpec):
         cal = mkcal(c['cal'])
         fs, k, L, pol = c['fs'], c['kind'], c['L'], float(c['pol'])
         out = [ctor_line(c['cal'])]
-        if c.get('huge'):
-            return out              # 2^20 samples: the property is checked on the implementation only
+        if c.get('huge') or c.get('nomodel'):
+            return out              # 2^20 samples, 10001-tap filters, equalised chirps / clicks: implementation only
 
         def sf_at(f):
             return float(np.asarray(cal.get_sf(f, L)))
@@ -738,7 +992,7 @@ class C08(FloatSpec):
             z0, discard, pin, pout = fl(f.initial_bp_zi), int(np.ceil(fs)), 1.0, pol
         elif k == 'fir':
             f = stim.BandlimitedFIRNoiseFactory(fs, c['fl'], c['fh'], L, ntaps=c['ntaps'], polarity=1, seed=seed,
-                                                calibration=cal, equalize=c['equalize'])
+                                                calibration=cal, **dict({'equalize': c['equalize']}, **_eqopts(c)))
             low, high, b, a = -f.scale, f.scale, f.taps, [1.0]
             z0, discard, pin, pout = fl(f.initial_zi), len(f.initial_zi), 1.0, pol
         else:
@@ -763,7 +1017,7 @@ class C08(FloatSpec):
         cal = mkcal(c['cal'])
         k, L, pol = c['kind'], c['L'], c['pol']
         R = [('ok',)]
-        if c.get('huge'):
+        if c.get('huge') or c.get('nomodel'):
             return R
         if k == 'wav' and wav_raw(c) is None:
             return R                                   # resampled playback (resample_fft): oracle only
